@@ -6,6 +6,7 @@ import os
 
 VERIF = os.path.dirname(os.path.dirname(os.path.abspath(__file__)))
 first = json.load(open(os.path.join(VERIF, "tools", "seed_first_run.json")))
+first2 = json.load(open(os.path.join(VERIF, "tools", "seed_first_run_r2.json")))
 rows = []
 for d in sorted(glob.glob(os.path.join(VERIF, "seeded", "*"))):
     name = os.path.basename(d)
@@ -15,6 +16,9 @@ for d in sorted(glob.glob(os.path.join(VERIF, "seeded", "*"))):
     m = json.load(open(mp))
     fired = m.get("checks_that_fired", {})
     caught = ", ".join(f"{p} ({'; '.join(sorted({r.split(' @ ')[0] for r in v['reports']}))[:60]})" for p, v in sorted(fired.items()) if v["exit"] == 1) or m.get("status", "-")
-    desc, fr = first.get(name, [m.get("needs_to_manifest", ""), ""])
+    if name in first2:
+        desc, fr = m.get("what", ""), first2[name]
+    else:
+        desc, fr = first.get(name, [m.get("needs_to_manifest", ""), ""])
     rows.append(f"| {name} | {desc} | {caught} | {fr} |")
 print("\n".join(rows))
